@@ -25,6 +25,11 @@ def cases(draw, procs):
     for L in spec['layers']:
         if draw(st.integers(0, 99)) < 60:
             L['hooks'] = sorted(set(L['hooks']) | {'setUp', 'tearDown'}, key=gen.HOOKS.index)
+    if draw(st.integers(0, 3)) == 0:
+        # free-text layer names (regular-expression metacharacters, case-only differences, leading zeros)
+        from .c10 import TRICKY
+        for L, nm in zip(spec['layers'], draw(st.permutations(TRICKY))):
+            L['name'] = nm
     tests = [t for _, t in gen.iter_tests(spec)]
     # --- bad items, placed anywhere
     for _ in range(nbad_target):
@@ -44,8 +49,11 @@ def cases(draw, procs):
             spec['modules'].append({'name': 'y%d' % len(spec['modules']),
                                     'style': draw(st.sampled_from(['bad_suite', 'raising_suite'])),
                                     'tree': {'t': 's', 'ch': []}})
+    # (decided early) a console that can only encode ASCII while a lost child wrote non-ASCII text to its stderr: no other
+    # noise then, so that nothing non-ASCII has to be printed as a *name*
+    want_ascii = procs and draw(st.integers(0, 7)) == 0
     # --- noise from tests (any stream; raw descriptors only inside children so the harness' own fds stay clean)
-    nnoise = draw(st.integers(0, 3))
+    nnoise = 0 if want_ascii else draw(st.integers(0, 3))
     for _ in range(nnoise):
         t = tests[draw(st.integers(0, len(tests) - 1))]
         ph = draw(st.sampled_from(['setUp', 'body', 'tearDown']))
@@ -69,7 +77,8 @@ def cases(draw, procs):
     fault = {'kind': 'none'}
     if procs:
         opts['j'] = draw(st.sampled_from([None, 1, 2, 3]))
-        fkind = draw(st.sampled_from(['none', 'none', 'die', 'die', 'cut', 'spawn', 'child_import']))
+        fkind = draw(st.sampled_from(['die', 'cut'] if want_ascii else
+                                     ['none', 'none', 'die', 'die', 'cut', 'spawn', 'child_import']))
         fault = {'kind': fkind}
         lnames = [L['name'] for L in spec['layers']]
         tgt = draw(st.sampled_from(lnames))
@@ -117,7 +126,12 @@ def cases(draw, procs):
     driver = draw(st.sampled_from(['inproc', 'inproc', 'cli']))
     if fault['kind'] == 'spawn':
         driver = 'inproc'
-    return {'spec': spec, 'opts': opts, 'fault': fault, 'driver': driver}
+    if want_ascii:
+        driver = 'cli'
+        opts['verbose'] = max(1, opts['verbose'])
+        spec['modules'][0].setdefault('acts', []).append(
+            ['in_child', ['noise', 'fd2', 'd\xc3\xa9marrage du service: \xe2\x9c\x93\n', 1]])
+    return {'spec': spec, 'opts': opts, 'fault': fault, 'driver': driver, 'ascii_console': want_ascii}
 
 
 def run_case(case, spec, timeout=180):
@@ -131,7 +145,7 @@ def run_case(case, spec, timeout=180):
             kw['script_parts'] = ['/nonexistent/ztv/no_such_script.py']
         return drive.run_inproc(spec, args, disk=True, use_run_internal=True, **kw)
     with drive.World(spec) as world:
-        return world.run(args, timeout=timeout)
+        return world.run(args, timeout=timeout, env={'PYTHONIOENCODING': 'ascii'} if case.get('ascii_console') else None)
 
 
 def went_wrong(case, spec, w, run):
@@ -198,6 +212,8 @@ def oracle(case, spec, run):
         labels.append('j%d' % case['opts']['j'])
     if case['opts'].get('repeat', 1) > 1:
         labels.append('repeat')
+    if case.get('ascii_console'):
+        labels.append('ascii-only-console')
     viol = []
     if case['driver'] == 'inproc':
         viol += common.run_escaped(run, 'C02')
